@@ -12,11 +12,45 @@ from rtverif.props.c04 import sig_text, sig_from_json
 KINDS = ('dt_off', 'dt_on', 'dt_on_pastified', 'ct_off', 'ct_on')
 
 
+class BoundConsts(object):
+    """Interval printer of the modular form when case['bound_consts'] is set: `[a ms:tK]` with a declared constant
+    tK for the upper bound (a bare constant next to a suffixed bound counts in the unit of that bound)."""
+
+    def __init__(self):
+        self.consts = []
+
+    def ivl(self, i):
+        a, b = i
+        if b <= 0:
+            return '[%sms:%sms]' % (lang.num(a * 1000), lang.num(b * 1000))
+        nm = 't%d' % len(self.consts)
+        self.consts.append((nm, 'float', lang.num(b * 1000)))
+        return '[%sms:%s]' % (lang.num(a * 1000), nm)
+
+
+def inlined_ivl(i):
+    return '[%sms:%s]' % (lang.num(i[0] * 1000), lang.num(i[1] * 1000))
+
+
 def modular_sd(case, names):
     """Specification dict of the modular form."""
     top = lang.from_jsonable(case['top'])
     defs = [(nm, lang.from_jsonable(g)) for nm, g in case['defs']]
     consts = [(nm, 'float', lang.num(val)) for nm, val in case['consts']]
+    if case.get('bound_consts'):
+        bc = BoundConsts()
+        texts = ['%s = %s;' % (nm, lang.to_text(g, ivl_printer=bc.ivl)) for nm, g in defs]
+        declared = list(names)
+        if case.get('declare_names', True):
+            declared += [nm for nm, _ in defs] + ['out']
+        top_text = lang.to_text(top, ivl_printer=bc.ivl)
+        sd = {'vars': declared, 'consts': consts + bc.consts}
+        if case.get('style') == 'one-text':
+            sd['text'] = '\n'.join(texts + ['out = %s;' % top_text])
+        else:
+            sd['subspecs'] = texts
+            sd['text'] = 'out = %s;' % top_text
+        return sd
     texts = ['%s = %s;' % (nm, lang.to_text(g)) for nm, g in defs]
     declared = list(names)
     if case.get('declare_names', True):
@@ -93,6 +127,8 @@ class C09(Prop):
         case = {'kind': kind, 'top': lang.to_jsonable(top), 'defs': [(nm, lang.to_jsonable(g)) for nm, g in defs],
                 'consts': [(nm, val) for nm, val in consts], 'style': rng.choice(['add_sub_spec', 'one-text']),
                 'declare_names': rng.random() < 0.8}
+        if rng.random() < 0.15 and any(g[1] is not None for g in lang.walk(f)):
+            case['bound_consts'] = True
         if kind.startswith('ct'):
             case['signals'] = sig_text(lang.gen_signals(rng, names) if kind == 'ct_off' else
                                        dict((k, s) for k, s in self._aligned(rng, names).items()))
@@ -157,7 +193,10 @@ class C09(Prop):
             return v
         rel = rel_for(f)
         try:
-            inl = self.execute(kind, {'text': lang.to_text(f), 'vars': names}, names, case)
+            itext = lang.to_text(f, ivl_printer=inlined_ivl) if case.get('bound_consts') else lang.to_text(f)
+            if case.get('bound_consts'):
+                v.info['class:bound-constants'] = 1
+            inl = self.execute(kind, {'text': itext, 'vars': names}, names, case)
         except Exception as e:
             v.skip = 'inlined form raised %s' % type(e).__name__
             return v
